@@ -29,48 +29,65 @@ def proof_targets(tier):
 
 
 def monitor(tier, seed):
-  """Run-time contract of HeapDict against a brute-force oracle, all push
-  sequences up to a length bound (exhaustive within the bound)."""
+  """Run-time contract of HeapDict against a brute-force oracle: all
+  histories of pushes and reads up to a length bound (exhaustive within the
+  bound).  Every read is compared with the oracle, so a read that disturbs
+  the container shows up at the next read."""
   from matched_markets.methodology import heapdict
-  maxlen = 5 if tier == 'quick' else 7
+  maxlen = 5 if tier == 'quick' else 6
   res = base.MonitorResult(
-      'all push sequences of length <= %d over items {0,1,2} x keys {a,b} x '
-      'capacity k in {0,1,2,3}; non-trivial = at least one push; distinct = '
-      '(k, sequence)' % maxlen, exhaustive=True)
-  res.bound = 'sequence length <= %d' % maxlen
-  moves = [(k, i) for k in 'ab' for i in (0, 1, 2)]
+      'all histories of length <= %d over {push(key, item) : key in {a,b}, '
+      'item in {0,1,2}} + {read}, capacity k in {0,1,2,3}; every read is '
+      'checked; non-trivial = at least one push before a read; distinct = '
+      '(k, history)' % maxlen, exhaustive=True)
+  res.bound = 'history length <= %d' % maxlen
+  moves = [(k, i) for k in 'ab' for i in (0, 1, 2)] + ['read']
+
+  def check_read(h, want, cap, inp):
+    got = h.get_result()
+    again = h.get_result()
+    for key, items in want.items():
+      exp = sorted(items, reverse=True)[:max(cap, 0)]
+      if got.get(key, []) != exp:
+        res.violation('HeapDict.get_result/post:top-k descending', inp)
+        return False
+    if set(got) != set(want):
+      res.violation('HeapDict.get_result/post:keys', inp)
+      return False
+    if again != got:
+      res.violation('HeapDict.get_result/post:read-only', inp)
+      return False
+    for v in got.values():
+      v.append(99)          # mutating the snapshot must not reach the container
+    if h.get_result() != again:
+      res.violation('HeapDict.get_result/post:fresh lists', inp)
+      return False
+    return True
+
   for cap in (0, 1, 2, 3):
     for n in range(0, maxlen + 1):
       for seq in itertools.product(moves, repeat=n):
         h = heapdict.HeapDict(cap)
         want = {}
-        for key, item in seq:
-          h.push(key, item)
-          want.setdefault(key, []).append(item)
-        got = h.get_result()
-        again = h.get_result()
-        inp = {'capacity': cap, 'pushes': [list(m) for m in seq]}
-        res.case((cap, seq), nontrivial=n > 0,
-                 sample=inp if n == maxlen else None)
-        for key, items in want.items():
-          exp = sorted(items, reverse=True)[:max(cap, 0)]
-          if got.get(key, []) != exp:
-            res.violation('HeapDict.get_result/post:top-k descending', inp)
-            break
-          if len(got.get(key, [])) > max(cap, 0):
-            res.violation('HeapDict/cap', inp)
-            break
-        else:
-          if set(got) != set(want):
-            res.violation('HeapDict.get_result/post:keys', inp)
-          elif again != got:
-            res.violation('HeapDict.get_result/post:read-only', inp)
+        inp = {'capacity': cap,
+               'history': [m if m == 'read' else list(m) for m in seq]}
+        ok = True
+        pushed = False
+        nontrivial = False
+        for m in seq:
+          if m == 'read':
+            nontrivial = nontrivial or pushed
+            ok = check_read(h, want, cap, inp)
+            if not ok:
+              break
           else:
-            # mutating the snapshot must not affect the container
-            for v in got.values():
-              v.append(99)
-            if h.get_result() != again:
-              res.violation('HeapDict.get_result/post:fresh lists', inp)
+            h.push(m[0], m[1])
+            want.setdefault(m[0], []).append(m[1])
+            pushed = True
+        if ok:
+          ok = check_read(h, want, cap, inp)
+        res.case((cap, seq), nontrivial=nontrivial or pushed,
+                 sample=inp if n == maxlen and len(res.samples) < 3 else None)
         if len(res.violations) > 3:
           return res
   return res
